@@ -57,4 +57,12 @@ ASSUME ~Dec(<<35, 48, 49, 35>>).ok /\ ~Dec(<<35, 43, 49, 35>>).ok /\ ~Dec(<<35, 
 ASSUME Dec(<<91, 48, 65, 93>>) = Yes("bytes", <<10>>) /\ Dec(<<91, 48, 97, 93>>) = Yes("bytes", <<10>>) /\ ~Dec(<<91, 48, 93>>).ok /\ ~Dec(<<91, 93>>).ok /\ ~Dec(<<91, 48, 103, 93>>).ok
 ASSUME ~Dec(<<60, 62>>).ok /\ ~Dec(<<60, 97, 45, 98, 62>>).ok /\ ~Dec(<<60>>).ok /\ ~Dec(<<97>>).ok /\ ~Dec(<<>>).ok
 ASSUME ~Dec(<<123, 45, 45, 45, 45, 45, 45, 45, 45, 45, 45, 45, 45, 45, 45, 52, 45, 45, 45, 45, 56, 45, 45, 45, 45, 45, 45, 45, 45, 45, 45, 45, 45, 45, 45, 45, 49, 125>>).ok
+\* RUID group lengths: with the same 64 hex digits, every displacement of a hyphen by one position (and a missing hyphen) is refused,
+\* and an accepted RUID text is unique up to hex letter case
+RuidDigits == [i \in 1..64 |-> IF i % 3 = 0 THEN 97 ELSE 49]        \* "11a11a..."
+RuidSplit(l1, l2, l3) == <<123>> \o SubSeq(RuidDigits, 1, l1) \o <<45>> \o SubSeq(RuidDigits, l1 + 1, l1 + l2) \o <<45>>
+                         \o SubSeq(RuidDigits, l1 + l2 + 1, l1 + l2 + l3) \o <<45>> \o SubSeq(RuidDigits, l1 + l2 + l3 + 1, 64) \o <<125>>
+ASSUME \A l1, l2, l3 \in 14..18 : ParseLocalId(RuidSplit(l1, l2, l3)).ok <=> (l1 = 16 /\ l2 = 16 /\ l3 = 16)
+ASSUME ParseLocalId(RuidSplit(16, 16, 16)) = Yes("ruid", UnHex(RuidDigits)) /\ FormatLocalId([f |-> "ruid", b |-> UnHex(RuidDigits)]) = RuidSplit(16, 16, 16)
+ASSUME ~ParseLocalId(<<123>> \o SubSeq(RuidDigits, 1, 32) \o <<45>> \o SubSeq(RuidDigits, 33, 48) \o <<45>> \o SubSeq(RuidDigits, 49, 64) \o <<125>>).ok
 =============================================================================
